@@ -307,6 +307,16 @@ theorem inv_start (s0 : St) (c : MultiCtx) (st : St)
   unfold Inv acc0; dsimp only; intro _
   exact ⟨m1, m2, m3, m4, m5, m6, rfl, by simp, by simp, by simp, fun _ => rfl, fun h => absurd h (by omega)⟩
 
+/-- What the multi-frame path says about the emitted packet. -/
+structure MultiPkt (s0 : St) (c : MultiCtx) (r : NatRes) : Prop where
+  toc : ∃ bw, r.pkt.tocCfg = genToc s0.mode (s0.fs / c.encFs) bw s0.streamChannels ∧
+          (s0.mode ≠ MODE_SILK_ONLY → bw = s0.bandwidth) ∧
+          (s0.mode = MODE_SILK_ONLY → bw = BW_NB ∨ bw = BW_MB ∨ bw = BW_WB)
+  len : (r.pkt.lens.length : Int) = c.nbFrames
+  lens : ∀ l ∈ r.pkt.lens, l ≤ 1275
+  out : ∃ pad, outRange r.pkt.tocCfg r.pkt.lens c.repacketizeLen.toNat pad = .ok { size := r.pkt.size, hdr := r.pkt.hdr }
+  size : (r.pkt.size : Int) = r.ret
+
 /-- **Multi-frame path.**  Under the contracts the loop never fails, the repacketiser call cannot
     fail, `1 ≤ ret ≤ repacketize_len ≤ out_data_bytes`, and a CBR packet that is not all-DTX has
     exactly `repacketize_len` bytes. -/
@@ -317,7 +327,8 @@ theorem multiFrame_post (s0 : St) (d : Decided) (isSil fsz out cbr : Int) (fos :
     (hcb : s0.useVbr = 0 → (multiCtx d.st fsz out cbr).repacketizeLen = cbrTarget s0 fsz out ∨
         (s0.userBitrate = OPUS_BITRATE_MAX ∧ s0.fs / 50 < fsz ∧ (multiCtx d.st fsz out cbr).repacketizeLen = out))
     (hok : (multiFrame d isSil fsz out cbr fos).ok = true) :
-    NatPost s0 fsz out (multiFrame d isSil fsz out cbr fos) := by
+    NatPost s0 fsz out (multiFrame d isSil fsz out cbr fos) ∧
+    MultiPkt d.st (multiCtx d.st fsz out cbr) (multiFrame d isSil fsz out cbr fos) := by
   have hmls : (multiCtx d.st fsz out cbr).maxLenSum = (multiCtx d.st fsz out cbr).nbFrames +
       (multiCtx d.st fsz out cbr).repacketizeLen -
       (if (multiCtx d.st fsz out cbr).nbFrames = 2 then 3 else 2 + ((multiCtx d.st fsz out cbr).nbFrames - 1) * 2) := rfl
@@ -358,12 +369,16 @@ theorem multiFrame_post (s0 : St) (d : Decided) (isSil fsz out cbr : Int) (fos :
       unfold hdrMax at h1
       split at h1 <;> split at hmls <;> omega
     have hpos := baseSize_pos a.lens hne
+    obtain ⟨t, bw, hcfg, htg, hb1, hb2⟩ := g.cfgS (by omega)
+    have hgetD : a.cfg0.getD 0 = t := by rw [hcfg]; rfl
+    have hlenI : (a.lens.length : Int) = c.nbFrames := by rw [hlen]; omega
     generalize hpd : decide (d.st.useVbr = 0 ∧ a.dtxCount ≠ c.nbFrames) = pad at *
     cases pad
     · obtain ⟨r, hr, hsz⟩ := outRange_nopad (a.cfg0.getD 0) a.lens c.repacketizeLen.toNat hne hbase
       rw [hr]
       dsimp only
-      refine ⟨rfl, by dsimp only; omega, by dsimp only; omega, ?_⟩
+      refine ⟨⟨rfl, by dsimp only; omega, by dsimp only; omega, ?_⟩,
+              ⟨⟨bw, by dsimp only; rw [hgetD]; exact htg, hb1, hb2⟩, hlenI, g.lens, ⟨false, hr⟩, rfl⟩⟩
       intro hv0 hd
       dsimp only at hd
       exfalso
@@ -373,7 +388,8 @@ theorem multiFrame_post (s0 : St) (d : Decided) (isSil fsz out cbr : Int) (fos :
     · obtain ⟨r, hr, hsz⟩ := outRange_pad (a.cfg0.getD 0) a.lens c.repacketizeLen.toNat hne hbase
       rw [hr]
       dsimp only
-      refine ⟨rfl, by dsimp only; omega, by dsimp only; omega, ?_⟩
+      refine ⟨⟨rfl, by dsimp only; omega, by dsimp only; omega, ?_⟩,
+              ⟨⟨bw, by dsimp only; rw [hgetD]; exact htg, hb1, hb2⟩, hlenI, g.lens, ⟨true, hr⟩, rfl⟩⟩
       intro hv0 _
       dsimp only
       rcases hcb hv0 with h | ⟨h1, h2, h3⟩
@@ -381,13 +397,27 @@ theorem multiFrame_post (s0 : St) (d : Decided) (isSil fsz out cbr : Int) (fos :
       · right; exact ⟨h1, h2, by omega⟩
 
 
-/-- **`opus_encode_native`, every path.**  For all oracle behaviours within the contracts, all
-    settings/states satisfying `stOk`, all legal frame sizes and all `out_data_bytes ≥ 1`. -/
-theorem encodeNative_post (s : St) (fuzz : Bool) (fsz out : Int) (o : NatOr)
-    (he : entryCheck s fsz out = none) (hok : (encodeNative s fuzz fsz out o).ok = true) :
-    NatPost s fsz out (encodeNative s fuzz fsz out o) := by
-  refine encodeNative_post_of s fuzz fsz out o he hok ?_
-  intro htm hst hlg hmok
+/-- The decision, the split constants and the result of the multi-frame branch for a given call. -/
+abbrev decOf (s : St) (fuzz : Bool) (fsz out : Int) (o : NatOr) : Decided :=
+  decide' (budgetSt s o fsz out) fuzz o fsz (sizeBudget (analysisUpd s o) fsz out).maxDataBytes
+abbrev ctxOf (s : St) (fuzz : Bool) (fsz out : Int) (o : NatOr) : MultiCtx :=
+  multiCtx (decOf s fuzz fsz out o).st fsz out (sizeBudget (analysisUpd s o) fsz out).cbr
+abbrev multiOf (s : St) (fuzz : Bool) (fsz out : Int) (o : NatOr) : NatRes :=
+  multiFrame (decOf s fuzz fsz out o) (effSilence (budgetSt s o fsz out) o) fsz out
+    (sizeBudget (analysisUpd s o) fsz out).cbr o.frames
+
+/-- The multi-frame branch of `opus_encode_native`: size post-condition, packet structure, and the
+    numbers of the split. -/
+theorem multi_branch (s : St) (fuzz : Bool) (fsz out : Int) (o : NatOr)
+    (he : entryCheck s fsz out = none) (htm : takesMulti s fuzz fsz out o = true)
+    (hst : stOk s = true) (hlg : legalFrame s.fs fsz = true)
+    (hmok : (multiOf s fuzz fsz out o).ok = true) :
+    NatPost s fsz out (multiOf s fuzz fsz out o) ∧
+    MultiPkt (decOf s fuzz fsz out o).st (ctxOf s fuzz fsz out o) (multiOf s fuzz fsz out o) ∧
+    (ctxOf s fuzz fsz out o).nbFrames * (ctxOf s fuzz fsz out o).encFs = fsz ∧
+    MultiPre (decOf s fuzz fsz out o).st (ctxOf s fuzz fsz out o) ∧
+    (decOf s fuzz fsz out o).st.fs = s.fs := by
+  unfold multiOf ctxOf decOf at *
   have hout : 1 ≤ out := by
     unfold entryCheck at he
     dsimp only at he
@@ -465,7 +495,16 @@ theorem encodeNative_post (s : St) (fuzz : Bool) (fsz out : Int) (o : NatOr)
       unfold BwOk at hbwd
       simp only [BW_NB, BW_SWB, BW_FB] at *
       omega
-  exact multiFrame_post s d _ fsz out b.cbr o.frames hpre ⟨by omega, hrl_out⟩ hdv hcbx hmok
+  have hmf := multiFrame_post s d _ fsz out b.cbr o.frames hpre ⟨by omega, hrl_out⟩ hdv hcbx hmok
+  exact ⟨hmf.1, hmf.2, n7, hpre, hdfs⟩
+
+/-- **`opus_encode_native`, every path.**  For all oracle behaviours within the contracts, all
+    settings/states satisfying `stOk`, all legal frame sizes and all `out_data_bytes ≥ 1`. -/
+theorem encodeNative_post (s : St) (fuzz : Bool) (fsz out : Int) (o : NatOr)
+    (he : entryCheck s fsz out = none) (hok : (encodeNative s fuzz fsz out o).ok = true) :
+    NatPost s fsz out (encodeNative s fuzz fsz out o) :=
+  encodeNative_post_of s fuzz fsz out o he hok
+    (fun htm hst hlg hmok => (multi_branch s fuzz fsz out o he htm hst hlg hmok).1)
 
 
 set_option maxHeartbeats 1000000 in
